@@ -3,7 +3,7 @@
    model; [check_spec] evaluates the property itself on the observation (pulse preserved, duration preserved,
    postcondition, errors only where the rewrite is entitled to fail and without changing the pulse). *)
 From Coq Require Import ZArith QArith Qround Qabs Bool List.
-Require Import QV.common.Util QV.C06.Model QV.C06.Spec QV.C06.Model_idx QV.C06.Model_vol.
+Require Import QV.common.Util QV.C06.Model QV.C06.Spec QV.C06.Model_idx QV.C06.Model_vol QV.C06.Model_cv.
 Import ListNotations.
 Open Scope Z_scope.
 
@@ -91,6 +91,10 @@ Inductive case :=
           [t0, t1) (a ramp is one segment over its duration; a table has one segment per pair of entries: hold v, v;
           jump v', v'; an entry time belongs to the later segment). None = NaN. *)
 | CToWf (input : tree) (impl : result wf)
+| CCv (acv : list (N * list (N * option Q))) (items : list (wf * N * option Q))
+       (* round 6: Waveform.constant_value(channel), the short cut of get_sampled.  [items]: leaf waveforms the rewrite built
+          (and to_waveform of the program afterwards), a channel, and what the real object answered; [acv]: what the
+          opaque atoms inside them answer per channel (oracle, observed on the same objects) *)
 | CSfg (n m : Z) (impl : result Z)
 | CCrash.
 
@@ -313,6 +317,12 @@ Definition ispec (input : itree) (impl : iobs) : bool :=
   idx_ok after && pieces_equivb (pieces (Model_idx.erase after)) (pieces (Model_idx.erase input))
   && Qeq_bool (duration (Model_idx.erase after)) (duration (Model_idx.erase input)).
 
+Definition acv_of (l : list (N * list (N * option Q))) : acv_t :=
+  fun i c => match assoc i l with
+             | Some a => match assoc c a with Some o => o | None => None end
+             | None => None
+             end.
+
 Definition check_corr (c : case) : bool :=
   match c with
   | CRewrite input path o impl => corr_step input path o impl
@@ -332,6 +342,8 @@ Definition check_corr (c : case) : bool :=
   | CIdx input path o impl => icorr input path o impl
   | CDec input path o impl _ _ _ _ => corr_step input path o impl     (* the samples are no model claim: spec only *)
   | CToWf input impl => result_wf_eqb (to_waveform input) impl
+  | CCv acv items =>
+      forallb (fun it => let '(w, c, impl) := it in optQ_eqb (constant_value (acv_of acv) w c) impl) items
   | CSfg n m impl => result_Z_eqb (smallest_factor_ge n m) impl
   | CCrash => false
   end.
@@ -490,6 +502,10 @@ Definition check_spec (c : case) : bool :=
                 && Qeq_bool (wf_dur x) (duration input)
       | Err _ => false
       end
+  | CCv acv items =>
+      (* an answer is a promise that get_sampled relies on: every piece the waveform plays is constant at that value on
+         the channel (no model function involved: [cv_admissible] looks at the pieces and the atoms' own answers) *)
+      forallb (fun it => let '(w, c, impl) := it in cv_admissible (acv_of acv) w c impl) items
   | CSfg n m impl =>
       match impl with
       | Ok k => (m <=? k) && (k <=? n) && (n mod k =? 0)
